@@ -434,7 +434,58 @@ def handleStack (ss : Sessions) (toks : List String) : Option (Sessions × Strin
     | none => pure (ss, "disabled")
   | _ => none
 
-partial def loop (h : IO.FS.Stream) (out : IO.FS.Stream) (ss : Sessions) : IO Unit := do
+/-! ### eventgroup sessions (C17) -/
+
+abbrev EGSessions := List (String × EG)
+
+def fmtEG (g : EG) (from_ : Nat) : String :=
+  let sent := (g.sent.drop from_).map fun (t, d, b) => s!"{t} {d} {toHex b}"
+  let subs := (g.subscribed.toArray.qsort (· < ·)).toList.map toString
+  s!"now={g.now} sent=[{" ; ".intercalate sent}] subs=[{",".intercalate subs}] clients={boolStr g.hasClients}"
+
+def handleEG (gs : EGSessions) (toks : List String) : Option (EGSessions × String) :=
+  let get (n : String) := (gs.find? (·.1 == n)).map (·.2)
+  let put (n : String) (g : EG) : EGSessions := (n, g) :: gs.filter (·.1 != n)
+  match toks with
+  | ["eg.new", name, sid, maj, egid, interval] => do
+    let sid ← sid.toNat?; let maj ← maj.toNat?; let egid ← egid.toNat?; let iv ← interval.toNat?
+    let g : EG := { serviceId := sid, major := maj, egid, interval := iv, cyc := if iv = 0 then .off else .created,
+                    pending := if iv = 0 then [] else [NTask.cycStep] }
+    pure (put name g, "ok " ++ fmtEG g 0)
+  | ["eg.sub", name, ep] => do
+    let g ← get name; let ep ← ep.toNat?
+    let g' := g.subscribe ep
+    pure (put name g', "ok " ++ fmtEG g' g.sent.length)
+  | ["eg.unsub", name, ep] => do
+    let g ← get name; let ep ← ep.toNat?
+    match g.unsubscribe ep with
+    | some g' => pure (put name g', "ok " ++ fmtEG g' g.sent.length)
+    | none => pure (gs, "err KeyError")
+  | ["eg.set", name, ev, hx] => do
+    let g ← get name; let ev ← ev.toNat?; let b ← ofHex hx
+    let g' := g.setValue ev b
+    pure (put name g', "ok " ++ fmtEG g' g.sent.length)
+  | "eg.once" :: name :: r => do
+    let g ← get name
+    let (evs, []) ← pCounted pNat r | none
+    let g' := g.notifyOnce evs
+    pure (put name g', "ok " ++ fmtEG g' g.sent.length)
+  | ["eg.settle", name] => do
+    let g ← get name
+    let g' := g.settle (4 * (g.pending.length + g.subscribed.length) + 8)
+    pure (put name g', "ok " ++ fmtEG g' g.sent.length)
+  | ["eg.adv", name, t] => do
+    let g ← get name; let t ← t.toNat?
+    let g' := EG.advance (if g.interval = 0 then 1 else (t - g.now) / g.interval + 2) g t
+    pure (put name g', "ok " ++ fmtEG g' g.sent.length)
+  | "eg.client" :: name :: egid :: r => do
+    let g ← get name; let egid ← egid.toNat?
+    let (eps, []) ← pCounted pNat r | none
+    let (g', ok) := g.clientSubscribed egid eps
+    pure (put name g', (if ok then "ok " else "nak ") ++ fmtEG g' g.sent.length)
+  | _ => none
+
+partial def loop (h : IO.FS.Stream) (out : IO.FS.Stream) (ss : Sessions) (gs : EGSessions) : IO Unit := do
   let line ← h.getLine
   if line.isEmpty then return ()
   let toks := (line.trimAscii.toString.splitOn " ").filter (· ≠ "")
@@ -442,13 +493,17 @@ partial def loop (h : IO.FS.Stream) (out : IO.FS.Stream) (ss : Sessions) : IO Un
   | t :: _ =>
     if t.startsWith "stk." then
       match handleStack ss toks with
-      | some (ss', ans) => out.putStrLn ans; loop h out ss'
-      | none => out.putStrLn "bad-op"; loop h out ss
+      | some (ss', ans) => out.putStrLn ans; loop h out ss' gs
+      | none => out.putStrLn "bad-op"; loop h out ss gs
+    else if t.startsWith "eg." then
+      match handleEG gs toks with
+      | some (gs', ans) => out.putStrLn ans; loop h out ss gs'
+      | none => out.putStrLn "bad-op"; loop h out ss gs
     else
-      out.putStrLn ((handle toks).getD "bad-op"); loop h out ss
-  | [] => out.putStrLn "bad-op"; loop h out ss
+      out.putStrLn ((handle toks).getD "bad-op"); loop h out ss gs
+  | [] => out.putStrLn "bad-op"; loop h out ss gs
 
 def main : IO Unit := do
   let stdin ← IO.getStdin
   let stdout ← IO.getStdout
-  loop stdin stdout []
+  loop stdin stdout [] []
